@@ -88,7 +88,12 @@ int main(int ac, char **av){
             else if (!strcmp(apiname, "off")) { rc = pm_node_off(&h, (char*)arg); printf("rc=%d", (int)rc); }
             else if (!strcmp(apiname, "cycle")) { rc = pm_node_cycle(&h, (char*)arg); printf("rc=%d", (int)rc); }
             else if (!strcmp(apiname, "nodes")) { pm_node_iterator_t it; rc = pm_node_iterator_create(&h, &it); printf("rc=%d nodes=", (int)rc);
-                if (rc == PM_ESUCCESS) { char *s; int first = 1; while ((s = pm_node_next(it))) { printf("%s", first ? "" : ","); hexout((unsigned char*)s, strlen(s)); first = 0; } if (first) printf("-"); pm_node_iterator_destroy(it); } else printf("-"); }
+                if (rc == PM_ESUCCESS) { char *s; int first = 1; while ((s = pm_node_next(it))) { printf("%s", first ? "" : ","); hexout((unsigned char*)s, strlen(s)); first = 0; } if (first) printf("-");
+                    /* past the end the iterator stays at the end (a rewind would hand every node out twice to a caller that asks again);
+                       after pm_node_iterator_reset the same nodes come again, once */
+                    { int again = 0; for (int k = 0; k < 3; k++) if (pm_node_next(it)) again++; int second = 0; pm_node_iterator_reset(it); while (pm_node_next(it)) second++;
+                      printf(" after=%d second=%d", again, second); }
+                    pm_node_iterator_destroy(it); } else printf("-"); }
             else if (!strcmp(apiname, "connect")) { pm_handle_t ph = NULL; rc = pm_connect("localhost:10101", NULL, &ph, 0); printf("rc=%d closes=%d", (int)rc, nclose); if (rc == PM_ESUCCESS) free(ph); }
             else printf("bad-api");
             printf(" sent="); hexout(wbuf, wlen); printf(" unread=%d\n", nchunks - curchunk);
